@@ -53,6 +53,10 @@ def site_contrib(d, bFV, bFT0):
         for (i, j), dx in jl:
             r = np.exp(-bFT0[jt] + bFV[invmap[i]]); W[i, j] += r; W[i, i] -= r; b[i] += r * dx; c0[i] += 0.5 * r * np.outer(dx, dx)
     gam = np.linalg.lstsq(W, -b, rcond=None)[0]
+    # gauge of GFcalc.biascorrection (sum_v pV[v] gamma[v] = 0): only matters for truly polar crystals (a vector invariant under
+    # the whole point group), where the origin-state ghost term depends on the additive constant of the unit-cell corrector
+    pV = np.array([np.exp(min(bFV) - bFV[invmap[i]]) for i in range(N)]); pV *= N / pV.sum()
+    gam = gam - (pV[:, None] * gam).sum(0) / N
     return np.array([c0[i] - 0.5 * (np.outer(b[i], gam[i]) + np.outer(gam[i], b[i])) for i in range(N)])
 
 
@@ -178,6 +182,9 @@ def run(ck):
     ncr = ck.n(9, 40)
     nfloat = 0; nreal = 0
     pool = list(gen.pool(rng, ncr, names=names, random_frac=0.35, nchem_max=2, maxatoms=2))
+    # crystals with a non-empty site vector basis always run first (origin-state theory of Lij: every component is compared)
+    osn = ["rect-polar2d", "oblique2d", "tria-disp", "polar3w2d"] + ([] if ck.quick else ["pg4", "p1-2d", "polar", "rect-polar2d", "oblique2d"])
+    pool = [(nm,) + gen.named(nm) for nm in osn] + pool
     for label, crys, chem in pool:
         try:
             net = network_for(crys, chem, rng)
@@ -219,11 +226,12 @@ def run(ck):
             for nm in ("Lss", "Lsv", "L1vv", "L0vv"):
                 if not errs[nm] <= 1e-8:
                     ck.violation("%s (injected) differs from the exact torus chain by %.3g relative" % (nm, errs[nm]), rep_doc, key="c01-float-" + nm)
-                # components in the span of a site vector basis are NOT compared under injection: the torus pseudo-inverse differs
-                # from the lattice Green function by a constant to which the origin-state terms are sensitive (they are compared
-                # with the real Green function against the extrapolated chain itself in tier c)
-                if npolar == 0 and not errs[nm + "_polar"] <= 1e-8:
-                    ck.violation("%s differs (%.3g) although the crystal has no site vector basis" % (nm, errs[nm + "_polar"]), rep_doc, key="c01-float-" + nm)
+                # components in the span of a site vector basis: since fix b4a4433 the origin-state correction is invariant
+                # under the additive constant of the Green function, so the injected torus pseudo-inverse is a valid oracle
+                # for them too (before, this was the known finding c01-originstate-vectorbasis)
+                if not errs[nm + "_polar"] <= 1e-8:
+                    ck.violation("%s (injected) differs from the exact torus chain by %.3g relative in the span of the site vector basis"
+                                 % (nm, errs[nm + "_polar"]), rep_doc, key="c01-float-polar-" + nm)
         # (b') the same comparison with the large-omega2 algorithm forced (large_om2 = 0) and inequivalent exchange classes
         # given different rates: for ordinary energies both algorithms must reproduce the exact chain
         # (multi-Wyckoff crystals are the C08 known finding c08-largeom2-multiwyckoff and are not compared here)
@@ -239,12 +247,13 @@ def run(ck):
                 errs = None
                 ck.violation("Lij(large_om2=0) raised %r" % e, {"crystal": repr(crys), "chem": chem, "cutoff": cut, "Nthermo": Nth}, key="c01-raise")
             finally:
-                del d.Lij
+                d.Lij = orig
             if errs is not None:
                 nfloat += 1
                 ck.case(key=("float-large", label, round(cut, 5), Nth, [np.asarray(a).round(12).tolist() for a in args]), nontrivial=True,
                         kind="float-forced-large:%dD-N%d-om2cls%d" % (crys.dim, d.N, len(d.om2_jn)))
                 for nm in ("Lss", "Lsv", "L1vv"):
+                    errs[nm] = max(errs[nm], errs[nm + "_polar"])
                     if not errs[nm] <= 1e-7:
                         ck.violation("%s (injected, large-omega2 algorithm forced) differs from the exact torus chain by %.3g relative" % (nm, errs[nm]),
                                      {"crystal": repr(crys), "chem": chem, "cutoff": cut, "Nthermo": Nth, "M": M,
@@ -300,7 +309,7 @@ def run(ck):
                 ck.violation("real GF: components in the span of the site vector basis differ from the extrapolated exact chain by %.3g relative" % worstp,
                              {"crystal": repr(crys), "chem": chem, "cutoff": cut, "Nthermo": Nth, "M1": M1, "M2": M2,
                               "thermo": {k: np.asarray(v).tolist() for k, v in th.items()}, "Lij": [x.tolist() for x in R],
-                              "chain_M1": [np.asarray(x).tolist() for x in I1], "chain_M2": [np.asarray(x).tolist() for x in I2]}, key=KEY_POLAR)
+                              "chain_M1": [np.asarray(x).tolist() for x in I1], "chain_M2": [np.asarray(x).tolist() for x in I2]}, key="c01-realGF-polar")
             if not worst <= tolreal:
                 ck.violation("un-injected Lij differs from the Richardson-extrapolated torus limit by %.3g relative" % worst,
                              {"crystal": repr(crys), "chem": chem, "cutoff": cut, "Nthermo": Nth, "M1": M1, "M2": M2,
